@@ -32,9 +32,10 @@ var mrNames = []string{"True", "False", "NoData", "OptionalNoData"}
 func runC11(x *Ctx) {
 	x.C.Rule("C11.R1", "statement kinds: constants = evaluator cases = decoder cases; struct types agree; constructors faithful", 14)
 	x.C.Rule("C11.R2", "comparator wiring and truth sets; equality; negation table", 12)
-	x.C.Rule("C11.R3", "and/or/all/any fold tables and laws (permutation invariance, monotonicity, corners); no answer bypasses the fold", 12)
+	x.C.Rule("C11.R3", "and/or/all/any fold tables and laws (permutation invariance, monotonicity, corners); no answer bypasses the fold; no loop over the elements is left early", 13)
 	x.C.Rule("C11.R4", "missing data: selector error -> NoData, optional miss -> OptionalNoData; kind mismatches -> False", 18)
 	x.C.Rule("C11.R5", "PartialMatch fails only on False", 6)
+	noEarlyExit(x)
 
 	ms := x.fn("C11.R1", "pkg/policy.matchStatement")
 	if ms == nil {
